@@ -62,7 +62,8 @@ Record vparams := mkVparams {
   vp_startkey : option json;
   vp_endkey : option json;
   vp_inclusive_end : bool;
-  vp_key : option json
+  vp_key : option json;
+  vp_reduce : bool                 (* reduce=true (the default): apply the view's reduce function, if it has one *)
 }.
 
 (* the family of SQL statements of C19 (semantics: eval_query below) *)
@@ -283,7 +284,7 @@ Definition mapfn (id : N) (key : string) (r : row) : list (json * json) :=
   match map_doc r with
   | None => []                                (* the body does not parse: the function fails, nothing is emitted *)
   | Some doc =>
-      match id with
+      match id mod 4 with
       | 0 => match num_prop doc "a" with Some a => [(a, JStr key)] | None => [] end
       | 1 => [(JStr key, JNull)]
       | 2 => match alookup String.eqb "_sync" (map_xattrs r) with
@@ -372,6 +373,14 @@ Definition select_rows (p : vparams) (rows : list vrow) : list vrow :=
   let inrange := filter (fun r : vrow => key_ge (snd (fst r)) minkey incl_min && key_le (snd (fst r)) maxkey incl_max) (sort_vrows rows) in
   let ordered := if vp_descending p then rev inrange else inrange in
   match vp_limit p with Some n => firstn (N.to_nat n) ordered | None => ordered end.
+
+(* views 4..7 are views 0..3 with the reduce function "_count": with reduce=true the selected rows are replaced
+   by one row (no id, key null) holding their number - or by nothing if there are none (sgbucket ProcessParsed) *)
+Definition view_reduces (m : N) : bool := 4 <=? m.
+Definition reduce_rows (p : vparams) (m : N) (rows : list vrow) : list vrow :=
+  if vp_reduce p && view_reduces m
+  then match rows with [] => [] | _ => [(""%string, JNull, JNum false (N.of_nat (List.length rows)))] end
+  else rows.
 
 Definition render_vrow (r : vrow) : string :=
   (fst (fst r) ++ "|" ++ jprint (snd (fst r)) ++ "|" ++ jprint (snd r))%string.
@@ -470,7 +479,7 @@ Definition sstep (s : store) (x : sctx) (o : sop) : sres :=
           | v :: _ =>
               let v' := if vp_stale p then v else update_view s v in
               let vs := map (fun w => if is_view cid ddoc name w then (if vp_stale p then w else update_view s w) else w) (s_views s) in
-              mkSres (with_views s vs) (RRows (map render_vrow (select_rows p (vd_rows v')))) [] []
+              mkSres (with_views s vs) (RRows (map render_vrow (reduce_rows p (vd_map v') (select_rows p (vd_rows v'))))) [] []
           end
       end
   | SQuery coll q =>
